@@ -141,6 +141,13 @@ func c07Units(c *Ctx) []*c07Unit {
 				addUnits(pairs, []int{i})
 			}
 		}
+		// ... plus the holders where several operations / parents compete for one schema
+		for i := range singles {
+			l := singles[i].Label
+			if (strings.HasPrefix(l, "pathBody<-") || strings.HasPrefix(l, "sharedBody<-")) && (strings.HasSuffix(l, "<-object") || strings.HasSuffix(l, "<-tuple") || strings.HasSuffix(l, "<-collidingImport[sameName]") || strings.HasSuffix(l, "<-pointer[properties,complex]")) {
+				addUnits(singles, []int{i})
+			}
+		}
 	}
 	// pairs whose members belong to sets whose order can matter: two imports, two collisions, two parents
 	// of one renamed definition, two operations sharing a body parameter, two pointers to one target
